@@ -13,7 +13,7 @@
    [Tin]/[Tout] = the lists of records (payload, eop, meta) transferred (valid && ready) at the
    stage's input / output; [offin e]/[offout e] = the beat on offer in that cycle; [holdW w] = on wire w a
    beat that is valid and not accepted is offered unchanged in the next cycle; [prefix]. *)
-From Coq Require Import List NArith Bool Arith.
+From Coq Require Import List NArith Bool Arith Lia.
 From Gatery Require Import StreamDefs StreamSpec StreamCompose StreamStages StreamHold StreamChain StreamLive StreamRefute StreamTop.
 Import ListNotations.
 
@@ -111,8 +111,10 @@ Example reduceWidth_hold_satisfiable :
   holdW (inW (trace (reduceS 2) cs)) /\
   Tout (trace (reduceS 2) cs) = [([1%N], false, 3%N); ([2%N], true, 3%N)] /\ Tin (trace (reduceS 2) cs) = [xf b].
 Proof.
-  repeat split; try (vm_compute; reflexivity);
-  vm_compute; repeat split; try exact I; intros; try discriminate; try reflexivity.
+  cbv zeta. split; [|split].
+  - vm_compute. repeat split; intros; try reflexivity; try discriminate; try exact I.
+  - vm_compute; reflexivity.
+  - vm_compute; reflexivity.
 Qed.
 
 (* without the hypothesis the statement is false for the faithful model *)
@@ -187,14 +189,18 @@ Print Assumptions stage_transfers_unconditional.
 
 Example chain_example :
   let d := chainOf [DRegDown; DExtend 2; DStall 0; DRegReady; DReduce 2; DDelay 3] in
-  wfd d /\ capd d = 5 /\ kd d = 2 /\
+  wfd d /\ capd d = 7 /\ kd d = 2 /\
   (let b x e := mkBeat true [x] e 1%N in
    let cs := [mkCyc [false] (b 1%N false) true; mkCyc [false] (b 2%N true) true] ++ repeat (mkCyc [false] (mkBeat false [0%N] false 0%N) true) 8 in
    stalls_ok d cs /\ holdW (inW (trace (denote d) cs)) /\
    Tout (trace (denote d) cs) = [([1%N], false, 1%N); ([2%N], true, 1%N)]).
 Proof.
-  repeat split; try (vm_compute; reflexivity); try (repeat constructor);
-  vm_compute; repeat split; try exact I; intros; try discriminate; try reflexivity.
+  cbv zeta. split; [simpl; intuition lia|].
+  split; [vm_compute; reflexivity|]. split; [vm_compute; reflexivity|].
+  split; [|split].
+  - unfold stalls_ok; vm_compute. repeat split; intros; try reflexivity; try discriminate.
+  - vm_compute. repeat split; intros; try reflexivity; try discriminate; try exact I.
+  - vm_compute; reflexivity.
 Qed.
 
 (* ---------------------------------------------------------------- stage_hold *)
@@ -228,8 +234,10 @@ Example stall_polite_satisfiable :
   let cs := [mkCyc [true] b true; mkCyc [false] b false; mkCyc [false] b true] in
   pairsFrom (stallS 0) (stall_polite 0) tt cs /\ holdW (inW (trace (stallS 0) cs)) /\ Tout (trace (stallS 0) cs) = [xf b].
 Proof.
-  repeat split; try (vm_compute; reflexivity);
-  vm_compute; repeat split; try exact I; intros; try discriminate; try reflexivity.
+  cbv zeta. split; [|split].
+  - vm_compute. repeat split; intros; try reflexivity; try discriminate; try exact I.
+  - vm_compute. repeat split; intros; try reflexivity; try discriminate; try exact I.
+  - vm_compute; reflexivity.
 Qed.
 
 (* DESIGN Q5, confirmed on the real code: stall withdraws a waiting beat when its condition rises.
